@@ -2,7 +2,7 @@
 import numpy as np
 from ..runner import job
 from .. import term as S
-from .c01_components import T
+from .c01_components import T, cls
 
 BOX = {r"^span$": (0.5, 50.0), r"^chord$": (0.1, 10.0), r"^s$": (0.0, 1.0), r"^c$": (0.0, 1.0), r"offset": (None, None)}
 RG = [(r"^span$", 2.0, 12.0), (r"^chord$", 0.5, 2.0), (r"^s$", 0.1, 0.9), (r"^c$", 0.1, 0.9), (r"offset", -2.0, 2.0)]
@@ -130,3 +130,25 @@ def crm_tables(env):
         env.holds("C14", "CRM table %s: leading-edge y == eta * semi-span (0.1 %%)" % v, bool(np.all(np.abs(ratio / ratio[-1] - 1) < 1e-3)),
                   "y/eta = %s" % np.round(ratio, 2))
     env.holds("C14", "the CRM tables were found", seen >= 9, "%d" % seen)
+
+
+@job("c14.join", ("C14", "C19"), cfgs=[dict(nys=(2, 3, 2), dims=((1, 0, 0), (0, 1, 0))), dict(nys=(2, 3, 2), dims=((1, 0, 1), (0, 1, 1))),
+                                        dict(nys=(3, 2), dims=((1, 1, 1),)), dict(nys=(2, 2, 3, 2), dims=((0, 0, 1), (1, 0, 0), (0, 1, 0)), _tier="thorough")])
+def join(env, nys, dims):
+    """the joining constraint of multi-section wings: for every shared edge, in order, the separation along the axes selected
+    for THAT edge between the leading- and trailing-edge corners of the two adjoining sections (left edge of the outboard...
+    next section minus right edge of the previous one) - zero exactly when the edges coincide along those axes"""
+    from .c01_components import _sections, MESH_RANGES
+    env.add_ranges(*MESH_RANGES)
+    secs = _sections(nys)
+    h = env.comp("join", lambda: cls("geometry.geometry_multi_join.GeomMultiJoin")(sections=secs, dim_constr=[np.array(d) for d in dims]))
+    ins = h.inputs()
+    meshes = [ins["%s_join_mesh" % s["name"]] for s in secs]
+    want = []
+    for k, d in enumerate(dims):
+        axes = [a for a in range(3) if d[a]]
+        right_prev = meshes[k][[0, -1], -1][:, axes]            # leading and trailing edge corner of the right edge of section k
+        left_next = meshes[k + 1][[0, -1], 0][:, axes]
+        want.append((left_next - right_prev).reshape(-1))
+    env.eq("C14,C19", "section separation == corner-to-corner distance along each edge's own constrained axes", h.compute(ins)["section_separation"],
+           np.concatenate(want))
